@@ -13,6 +13,7 @@ mod replay;
 mod rt;
 mod runner;
 mod sim;
+mod venues;
 mod world;
 
 use serde_json::{json, Value};
@@ -117,6 +118,10 @@ fn cmd_check(args: &[String], out: &mut std::fs::File) -> i32 {
         });
     let digest_out = arg(args, "--digests");
     writeln!(out, "mfisim check property={property} tier={tier} VERIF_SEED={seed} runs={runs} threads={threads}").ok();
+    if let Err(e) = venues::self_test() {
+        writeln!(out, "HARNESS-ERROR: venue fixture layout check failed: {e}").ok();
+        return 2;
+    }
     let t0 = Instant::now();
     let known = load_known(&property);
     let known_classes: Vec<(String, String, String)> = known.iter().map(|k| k.0.clone()).collect();
